@@ -218,14 +218,8 @@ func asiSafeNext(next string) bool {
 // free: a restricted production already ended the statement, any next token is fine.
 func (g *gen) terminate(out []tok, next string, strict, free bool) []tok {
 	last := out[len(out)-1]
-	kwEnd := realKeywords[last.text] && len(out) >= 2 && out[len(out)-2].text == "." // a.if : recorded finding C03-asi-after-keyword-name
-	semi := P("TSemi", ";")
-	if strict || kwEnd {
-		semi.noNL = true // a line terminator before ";" is recorded finding C03-semicolon-after-newline
-	}
-	if kwEnd {
-		return append(out, semi)
-	}
+	semi := P("TSemi", ";") // may stand on a later line: it still ends the statement (7.9)
+	_ = strict
 	if strings.HasPrefix(last.coq, "TAtom (ARegex") && next != "}" && next != "" && isIdentChar(firstRune(next)) &&
 		!realKeywords[next] && next != "this" && next != "null" && next != "true" && next != "false" {
 		// otto takes an IDENTIFIER after white space as the flags of the literal (recorded finding C03-regexp-flags-detached)
@@ -297,6 +291,8 @@ func protectNoIn(n *N, exposed, rel bool) *N {
 		switch {
 		case (n.Tag == tCall || n.Tag == tNew) && i > 0, n.Tag == tIdx && i == 1:
 			e = false
+		case n.Tag == tCond && i == 1 && prec(k) >= 1:
+			e = false // 11.12: the middle operand of ?: is an AssignmentExpression WITH in
 		}
 		out.Kids = append(out.Kids, protectNoIn(k, e, rel))
 	}
@@ -1023,4 +1019,20 @@ func (g *gen) pinCase(class int, src string, want, pinned *N) {
 	}
 	g.env.Add(fmt.Sprintf("CPin %d (%s) %s %s", class, want.coq(), pin, obs),
 		fmt.Sprintf("pinned %q -> %s ; ES5 tree %s", src, shown, want.coq()), "pinned", true)
+}
+
+// a fixed text that a repaired defect used to mis-parse: only the tree ES5 assigns is accepted
+func (g *gen) regressCase(src string, want *N) {
+	want = strip(want)
+	got, errText := parseProgram(src)
+	obs, shown := "None", "syntax error: "+errText
+	if got != nil {
+		obs = "(Some (" + got.coq() + "))"
+		shown = "tree " + got.coq()
+		if equalTree(got, want) {
+			shown = "the generating tree"
+		}
+	}
+	g.env.Add(fmt.Sprintf("CProg (%s) %s", want.coq(), obs),
+		fmt.Sprintf("regression %q -> %s ; ES5 tree %s", src, shown, want.coq()), "regression-fixed", true)
 }
